@@ -5,7 +5,7 @@ VERIF = os.path.dirname(os.path.dirname(os.path.abspath(__file__)))
 
 # id -> (category, technique, level text, level note, design ref)
 CHECKS = {
- "C01": ("exploration", "Hypothesis round-trip + metamorphic (legacy padding) over constructive message generators; complete enumeration of soft-bit values, MTS combinations, FN boundaries",
+ "C01": ("exploration", "Hypothesis round-trip + metamorphic (legacy padding) over constructive message generators; complete enumeration of soft-bit values, MTS combinations, FN boundaries; Hypothesis message sequences and object-life histories (one object changed in place between encodings)",
          "Generated-input search: every generated valid message must decode from its own encoding to equal fields; finite sub-domains (256 soft-bit octets, all MTS octets, boundary FNs x TN) are enumerated completely. Not a proof over 2^148 burst contents.",
          "Trusts the harness's field comparison and message builders; symmetric codec errors are C04's job.", "3/C01"),
 }
@@ -13,13 +13,13 @@ CHECKS.update({
  "C07": ("exploration", "complete enumeration of the reduced hopping domain against a spec-derived reference (firmware via ASan/UBSan driver around unmodified rfch.c; Python resolve), plus Hypothesis three-way differential python/firmware/spec",
          "Finite-domain enumeration: thorough enumerates HSN x T1R x T2 x T3 x N completely at MAIO in {0,1,N-1,63} for the firmware (1.4e9 calls) and HSN 0 over every FN; quick a seed-rotated quarter of T1R at two MAIO values. Python side enumerates all (HSN,T2,T3,N) with rotating T1/MAIO. MAIO values other than the four are sampled by Hypothesis only.",
          "Trusts refs/ref_hop.py + the in-driver reference (spec text, div/mod), RNTABLE copy, x86-64 clang build of the firmware.", "3/C07"),
- "C13": ("exploration", "complete single-field and pairwise boundary lattice over 13 baselines against an independent range predicate, plus Hypothesis random combinations; send path observed on an in-memory UDP double",
+ "C13": ("exploration", "complete single-field and pairwise boundary lattice over 13 baselines against an independent range predicate, plus Hypothesis random combinations; every point also on objects with a past (parsed-then-re-sent, encoded-then-changed-in-place); send path observed on an in-memory UDP double",
          "Enumerates every single and every pair of fields at boundary candidates (on, next to, far from each bound, None) for every class/version/modulation/NOPE baseline; validate(), gen_msg() and DATAInterface.send_msg() must all agree with refs/ref_valid. Triple-and-higher interactions are sampled only.",
          "Trusts refs/ref_valid.py (transcribed from the property's range list) and the FakeNet socket double.", "3/C13"),
- "C15": ("exploration", "Hypothesis histories (append in chunks) with model list oracle; all skip/count pairs; crash-point enumeration of truncation offsets",
+ "C15": ("exploration", "Hypothesis histories (append in chunks) with model list oracle; all skip/count pairs; generated read sequences on one reader; crash-point enumeration of truncation offsets; constructed files with a record header at every offset 2^k-3..2^k+1",
          "Generated capture files compared with the stored list through every read API, every (skip,count) pair, every index, and every truncation offset for files up to 900 octets (header/tail neighbourhoods + sampled body offsets beyond).",
          "Crash = prefix of the byte stream; record layout recomputed with refs/ref_trxd.", "3/C15"),
- "C19": ("exploration", "complete enumeration of all 2715648 frame numbers x 62 deltas through the unmodified C (gsm_utils.c, firmware sync.c) and Python helpers against a div/mod reference; full-hyperframe +1 walk",
+ "C19": ("exploration", "complete enumeration of all 2715648 frame numbers x 63 deltas (incl. 0) through the unmodified C (gsm_utils.c, firmware sync.c) and Python helpers against a div/mod reference; full-hyperframe +1 walk; generated mixed-delta histories on one running time",
          "Exhaustive over the finite domain named in the property (every FN, every listed delta, the whole carry chain including the wrap), C under ASan/UBSan; Python compared with the reference and with the C output for every FN.",
          "x86-64 clang build; sync.c linked with never-executed weak hardware stubs; reference decomposition is 4 lines of div/mod.", "3/C19"),
 })
@@ -30,7 +30,7 @@ CHECKS.update({
  "C03": ("exploration", "Hypothesis operation histories with per-burst outcome accounting (model), plus exhaustive enumeration of thread schedules (<=1/<=2 pre-emptions, line/opcode granularity) of socket-op vs clock-tick by a settrace interleaving explorer with a cooperative lock",
          "Histories: every accepted burst must end in exactly one of transmitted-in-its-own-tick / stale report / discarded by POWEROFF, across wraps. Schedules: for each generated scenario ALL schedules within the pre-emption bound are executed on the real code with real threads; bounded by pre-emption count and by line/bytecode granularity.",
          "CPython-level atomicity of single bytecodes / list.append; lock replaced by an interface-compatible cooperative lock; message codec frames are not pre-emption points (thread-local data).", "3/C03"),
- "C04": ("exploration", "Hypothesis differential: Python encoder/decoder vs independent layout model; trxcon's unmodified trx_if.c (ASan/UBSan driver on a socketpair) vs Python in both directions",
+ "C04": ("exploration", "Hypothesis differential: Python encoder/decoder vs independent layout model; object-life histories (one message object changed in place between encodings); trxcon's unmodified trx_if.c (ASan/UBSan driver on socketpairs, two instances used alternately) vs Python in both directions",
          "Generated valid messages must encode to exactly the layout model's octets; every accepted datagram (valid, mutated, glued) must be interpreted per the layout; v0 bursts cross the language boundary both ways and must keep fn/tn/rssi/toa/bits.",
          "Trusts refs/ref_trxd.py and the libosmocore shim used to host trx_if.c.", "3/C04"),
  "C05": ("exploration", "Hypothesis command histories against TrxModel (framing, status, results, effects incl. anchored state), plus trxcon round trip through unmodified trx_if.c",
@@ -47,16 +47,16 @@ CHECKS.update({
          "Whether muted bursts consume drop budget is unspecified: both accepted.", "3/C18"),
 })
 CHECKS.update({
- "C09": ("exploration", "Hypothesis-generated handler-duration patterns / start frames / periods / link sets run through the real worker loop under a virtual monotonic clock; absolute-deadline reference model",
+ "C09": ("exploration", "Hypothesis-generated handler-duration patterns / start frames / periods / link sets (changed in place at generated ticks) run through the real worker loop under a virtual monotonic clock; absolute-deadline reference model",
          "The harness owns time (monotonic_ns, Event.wait, Thread are doubles), so tick times are exact integers: every tick's frame number, time, indication payload/recipient/ordering is compared with the model over generated duration patterns incl. overruns, wraps and restarts.",
          "Sending takes no virtual time; P may be 4 614 999..4 615 001 ns but must be constant within a run.", "3/C09"),
  "C14": ("exploration", "Hypothesis raw-input and structured-mutation fuzzing of every receive path ('only ValueError / nothing escapes'), hostile-input sessions with a recovery script checked against TrxModel, an exhaustive boundary lattice of numeric TRXC arguments, coverage-guided atheris campaigns on byte-level targets, and Hypothesis action sequences + a libFuzzer target on the unmodified trx_if.c under ASan/UBSan",
          "Generated-input search over byte strings and structured mutations at every entry point, and over where in a valid session the hostile input arrives (each followed by traffic through the clock path and a strictly checked recovery); the trxcon side runs under sanitizers so out-of-bounds access is a visible failure.",
          "No MSan (stale-but-in-bounds reads are invisible); settings after hostile control input are unknown until the recovery script has run.", "3/C14"),
- "C16": ("exploration", "Hypothesis-generated protocol definitions (programs) instantiated as real codec objects and interpreted by an independent layout interpreter; round-trip, canonical re-encoding, length-exactness and negative tests per definition",
+ "C16": ("exploration", "Hypothesis-generated protocol definitions (programs) instantiated as real codec objects and interpreted by an independent layout interpreter; round-trip, canonical re-encoding, length-exactness, negative tests and re-encoding after an in-place nested change per definition",
          "Recursive generator of definition trees (depth <= 3) with encodable-by-construction values; encoder compared octet for octet with refs/codec_ref, decoder by round trip, plus every short prefix, trailing octets, fixed-value mismatch, unencodable values and over-wide bit-field values.",
          "Only compositions demonstrated by the repository's own users are generated (flexible fields at the tail, exact bit-field partitions).", "3/C16"),
- "C17": ("exploration", "Hypothesis value dicts per PDU class against a hand-transcribed documented layout (v0/v1/v2 incl. batched sub-PDUs), reserved-bit noise, wrong-version rejection, and differential against the message codec's datagrams",
+ "C17": ("exploration", "Hypothesis value dicts per PDU class against a hand-transcribed documented layout (v0/v1/v2 incl. batched sub-PDUs), reserved-bit noise, wrong-version rejection, PDU sequences and object-life histories (in-place changes incl. inside batched sub-PDUs), and differential against the message codec's datagrams",
          "Generated-input search over all defined modulation codes, NOPE, 0..8 batched sub-PDUs; encoder vs layout octet for octet, round trip, reserved bits, version nibble; every valid v0/v1 datagram of data_msg (legacy on/off) must be accepted with identical fields.",
          "Reserved modulation codes (0b0111, 0b111x) are not asserted; v2 layout reference is a transcription of the TRXDv2 field order.", "3/C17"),
 })
@@ -67,10 +67,10 @@ CHECKS.update({
  "C08": ("exploration", "Hypothesis operation histories against an ASan/UBSan driver around the unmodified tdma_sched.c compared step by step with a 25x8 ring model",
          "Model-based generated-input search over schedule / schedule_set / advance / execute / reset sequences from any ring position; executed callbacks (multiset, parameters, priority order), return codes and overflow behaviour compared after every operation.",
          "Callbacks succeed and do not re-enter; items of an overflowed set / of the current bucket at reset get may-or-may-not latitude.", "3/C08"),
- "C11": ("exploration", "complete enumeration of all tasks x all frames of a 51x26x8 cycle (firmware, recording stub) and all (combination, timeslot) lookups x table rows (trxcon, ASan) compared through a fixed task<->channel correspondence table",
+ "C11": ("exploration", "complete enumeration of all tasks x all frames of a 51x26x8 cycle (firmware, recording stub) and all (combination, timeslot) lookups x table rows (trxcon, ASan) compared through a fixed task<->channel correspondence table; continuous multi-task walks across the hyperframe wrap; generated trxcon lookup histories",
          "Exhaustive over the finite domain: every firmware trigger and every trxcon table row is visited; block starts / per-frame ownership compared per logical channel and direction; burst-id cyclicity, lchan_mask containment, slotmask/config validity and out-of-table reads (ASan) checked for every layout.",
          "The correspondence table and the one-frame DSP latency are harness knowledge; x86-64 clang build; newer libosmocore enumerators from the shim.", "3/C11"),
- "C20": ("exploration", "Hypothesis-generated cell allocations and bitmaps against the function sliced verbatim from sysinfo.c in an ASan/UBSan driver with exact-size heap buffers; reference decoder from TS 44.018 10.5.2.21",
+ "C20": ("exploration", "Hypothesis-generated cell allocations and bitmaps (lengths 0..255, all lengths > 8 enumerated; earlier decode on the same frequency array) against the function sliced verbatim from sysinfo.c in an ASan/UBSan driver with exact-size heap buffers; reference decoder from TS 44.018 10.5.2.21",
          "Generated-input search over CA subsets (size 0..64, with/without ARFCN 0), bitmap lengths 0..9 and biased contents; result list, length, return code, HOPP flags and untouched outputs compared with refs/ref_ma; any out-of-bounds access is a sanitizer report.",
          "Only gsm48_decode_mobile_alloc() is compiled (sysinfo.c needs libosmo-gprs headers); vla-bound check off.", "3/C20"),
 })
